@@ -43,6 +43,82 @@ type caseT struct {
 	BSeq *bodySeq    `json:",omitempty"`
 	Meth *methodCase `json:",omitempty"`
 	Sl   *slashCase  `json:",omitempty"`
+	Err  *errCase    `json:",omitempty"`
+}
+
+// errCase: the default rejection of bodylimit (Which = "B": a declared size over Limit) or of basicauth (Which = "A":
+// no credentials) as it appears on the wire — status, Content-Type, body, WWW-Authenticate.
+type errCase struct {
+	Which string
+	Limit int64 `json:",omitempty"`
+	Realm B     `json:",omitempty"`
+}
+
+func genErr(r *hx.Rand) *errCase {
+	if r.Chance(1, 4) {
+		return &errCase{Which: "A", Realm: hx.Pick(r, []B{B("Restricted"), B(""), B("Admin Area"), B("a\"b"), B("r\u00e9alm"), B("x, y=z")})}
+	}
+	const kb, mb, gb = int64(1024), int64(1024 * 1024), int64(1024 * 1024 * 1024)
+	unit := hx.Pick(r, []int64{1, kb, mb, gb})
+	var n int64
+	switch r.Intn(6) {
+	case 0: // around a unit boundary
+		n = hx.Pick(r, []int64{kb, mb, gb})*int64(hx.Pick(r, []int{1, 1, 2, 10, 1000, 1023, 1024})) + int64(r.Range(0, 2)) - 1
+	case 1: // an exact tie of the first decimal: bytes*10 = unit*(m + 1/2)
+		m := int64(r.Range(10, 20000))
+		if v := (unit/2 + m*unit); unit > 1 && v%10 == 0 {
+			n = v / 10
+		} else {
+			n = unit*m/10 + 1
+		}
+	case 2: // next to the rounding boundaries x.x5
+		n = unit*int64(r.Range(1, 5000)) + unit*int64(r.Range(0, 19))/20 + int64(r.Range(0, 2)) - 1
+	case 3:
+		n = int64(r.Range(1, 1023))
+	case 4: // large, still exactly representable as float64
+		n = (int64(1) << uint(r.Range(31, 52))) + int64(r.Range(0, 1<<20))
+	default:
+		n = int64(r.Range(1, 1<<30))
+	}
+	if n <= 0 {
+		n = 1
+	}
+	return &errCase{Which: "B", Limit: n}
+}
+
+func (c *errCase) emit(id string, st *hx.Stats) string {
+	l := hx.NewLine(id).Tok("E").Tok(c.Which)
+	rec := httptest.NewRecorder()
+	ran := false
+	r := router.MustNew()
+	var req *http.Request
+	if c.Which == "B" {
+		l.I64(c.Limit)
+		r.Use(bodylimit.New(bodylimit.WithLimit(c.Limit)))
+		req = httptest.NewRequest(http.MethodPost, "/up", strings.NewReader("x"))
+		req.Header.Set("Content-Length", strconv.FormatInt(c.Limit, 10)+"0") // ten times the limit
+	} else {
+		l.Bytes(c.Realm)
+		r.Use(basicauth.New(basicauth.WithUsers(map[string]string{"u": "p"}), basicauth.WithRealm(string(c.Realm))))
+		req = httptest.NewRequest(http.MethodPost, "/up", nil)
+	}
+	r.POST("/up", func(*router.Context) { ran = true })
+	if guard(func() { r.ServeHTTP(rec, req) }) {
+		return l.Sep().Tok("P").String() + hx.Comment(caseT{Kind: "E", Err: c})
+	}
+	res := rec.Result()
+	body, _ := io.ReadAll(res.Body)
+	st0 := res.StatusCode
+	if ran {
+		st0 = 0 // the handler must not run: shows up as a status the model never produces
+	}
+	l.Sep().Nat(st0).Str(res.Header.Get("Content-Type")).Bytes(body)
+	optStr(l, res.Header.Values("WWW-Authenticate"))
+	if st != nil {
+		st.Case(l.String(), true)
+		st.Count("E." + c.Which)
+	}
+	return l.String() + hx.Comment(caseT{Kind: "E", Err: c})
 }
 
 func guard(f func()) (panicked bool) {
@@ -1706,6 +1782,8 @@ func emitCase(id string, k caseT, st *hx.Stats) string {
 		return k.Meth.emit(strings.TrimSuffix(id, ".s2"), st)
 	case "T":
 		return k.Sl.emit(id, st)
+	case "E":
+		return k.Err.emit(id, st)
 	}
 	return ""
 }
@@ -1746,6 +1824,12 @@ func fixedCases() []caseT {
 		{Kind: "B", Body: &bodyCase{Limit: 5, Body: B("123"), CL: sp("6"), Dflt: 512}},
 		{Kind: "B", Body: &bodyCase{Limit: 5, Body: B("123456"), Script: []stepT{d(5), {K: "Z"}}, Dflt: 8}},
 		{Kind: "B", Body: &bodyCase{Limit: 5, Body: B("123456"), Script: []stepT{d(5), {K: "F"}}, Dflt: 8}},
+		// default error responses: 2 MiB (the default limit), a tie of the first decimal (1.25 KB), just below a unit
+		{Kind: "E", Err: &errCase{Which: "B", Limit: 2 * 1024 * 1024}},
+		{Kind: "E", Err: &errCase{Which: "B", Limit: 1280}},
+		{Kind: "E", Err: &errCase{Which: "B", Limit: 1048575}},
+		{Kind: "E", Err: &errCase{Which: "B", Limit: 1023}},
+		{Kind: "E", Err: &errCase{Which: "A", Realm: B("Restricted")}},
 		// basic auth: password with colons, lower-case scheme, user name with a colon
 		{Kind: "A", Auth: &authCase{Users: [][2]B{{B("colon"), B("a:b:c")}}, Realm: B("Restricted"), Auth: bp("Basic " + b64("colon:a:b:c"))}},
 		{Kind: "A", Auth: &authCase{Users: [][2]B{{B("admin"), B("secret")}}, Realm: B("Restricted"), Auth: bp("basic " + b64("admin:secret"))}},
@@ -1787,6 +1871,8 @@ func main() {
 			case 0:
 				if r.Chance(1, 15) {
 					k = caseT{Kind: "R", BSeq: genBodySeq(r)}
+				} else if r.Chance(1, 12) {
+					k = caseT{Kind: "E", Err: genErr(r)}
 				} else {
 					k = caseT{Kind: "B", Body: genBody(r)}
 				}
